@@ -1,9 +1,10 @@
 /- Line-protocol model driver for C08 (threaded channel, single event loop, deterministic schedule).
-   One line = one history:   <requeue> <head> <redispatch> <check> <limit> op op op ...
-     g<f>:<x>   fiber f gives item x          t<f>   fiber f takes        a<f>   fiber f abandons its wait
+   One line = one history:   <requeue> <head> <redispatch> <check> <forwardOwn> <limit> op op op ...
+     g<f>:<x>   fiber f gives item x (blocks when the queue is over capacity)         t<f>   fiber f takes        a<f>   fiber f abandons its wait
      c          close
    After every op the (single) self-pipe is drained: `handle 0` until no message is in flight.
-   Output: one observation per op, separated by " ; " :   <#items> d=<fiber>:<item>,... w=<fiber>,...  (delivered log, close wake-ups)
+   Output: one observation per op, separated by " ; " :   <#items> d=<fiber>:<item>,... w=<fiber>,... g=<fiber>,...
+   (delivered log; takers woken by close; givers whose ev/give has returned: immediately, by a write wake-up or by close)
 -/
 import Driver.Util
 import JanetModel.Thread.Model
@@ -13,10 +14,14 @@ def pump (cfg : Cfg) : Nat → St → St
   | 0, s => s
   | n + 1, s => if s.flight.isEmpty then s else pump cfg n (handle cfg s 0)
 
-def obs (s : St) : String :=
+def sortNat (l : List Nat) : List Nat := l.foldl (fun acc x => (acc.filter (· < x)) ++ [x] ++ (acc.filter (· ≥ x))) []
+
+/-- `givers`: fibers that did a give; `imm`: givers whose give did not block -/
+def obs (s : St) (givers imm : List Nat) : String :=
   let d := String.intercalate "," (s.delivered.map (fun p => s!"{p.1}:{p.2}"))
-  let w := String.intercalate "," ((s.woken.filter (fun p => p.2 == Kind.close)).map (fun p => toString p.1))
-  s!"{s.items.length} d={d} w={w}"
+  let w := String.intercalate "," ((sortNat ((s.woken.filter (fun p => p.2 == Kind.close && !givers.contains p.1)).map (·.1))).map toString)
+  let g := sortNat (imm ++ (s.woken.filter (fun p => givers.contains p.1 && (p.2 == Kind.write || p.2 == Kind.close))).map (·.1))
+  s!"{s.items.length} d={d} w={w} g={String.intercalate "," (g.map toString)}"
 
 def parseOp (tok : String) : Option Act :=
   match tok.toList with
@@ -35,21 +40,25 @@ def b (s : String) : Bool := s == "1"
 
 def runLine (toks : List String) : String :=
   match toks with
-  | rq :: hd :: rd :: ck :: lim :: ops =>
+  | rq :: hd :: rd :: ck :: fo :: lim :: ops =>
     match lim.toNat? with
     | none => "bad-op"
     | some l =>
-      let cfg : Cfg := ⟨b rq, b hd, b rd, b ck⟩
-      let rec go (s : St) (ops : List String) (acc : List String) : List String :=
+      let cfg : Cfg := ⟨b rq, b hd, b rd, b ck, b fo⟩
+      let rec go (s : St) (givers imm : List Nat) (ops : List String) (acc : List String) : List String :=
         match ops with
         | [] => acc.reverse
         | o :: rest =>
           match parseOp o with
           | none => ("bad-op" :: acc).reverse
           | some a =>
-            let s' := pump cfg 64 (step cfg s a)
-            go s' rest (obs s' :: acc)
-      String.intercalate " ; " (go (init l) ops [])
+            let s1 := step cfg s a
+            let (givers', imm') := match a with
+              | .give _ f _ => (f :: givers, if !s.closed && s1.writers.length == s.writers.length then f :: imm else imm)
+              | _ => (givers, imm)
+            let s' := pump cfg 64 s1
+            go s' givers' imm' rest (obs s' givers' imm' :: acc)
+      String.intercalate " ; " (go (init l) [] [] ops [])
   | _ => "bad-op"
 
 def main : IO Unit := runLoop () (fun _ toks => ((), runLine toks))
